@@ -110,17 +110,11 @@ theorem pmfPoisson_nonneg (T : Fn) (hexp : ∀ y, 0 < T.exp y) (mu : Rat) (n : N
   · exact le_refl _
   · exact (hexp _).le
 
-theorem pdfChiSq_nonneg (T : Fn) (hexp : ∀ y, 0 < T.exp y) (hpow : ∀ b e, 0 < b → 0 ≤ T.pow b e) (hg : ∀ y, 0 < y → 0 < T.gamma y)
-    (x dof : Rat) : 0 ≤ pdfChiSq T x dof := by
+theorem pdfChiSq_nonneg (T : Fn) (hexp : ∀ y, 0 < T.exp y) (x dof : Rat) : 0 ≤ pdfChiSq T x dof := by
   unfold pdfChiSq
   split_ifs with h
   · exact le_refl _
-  · have hx : 0 < x := by by_contra hc; exact h (Or.inl (not_lt.mp hc))
-    have hd : 0 < dof / 2 := by
-      have : dofEps ≤ dof := by by_contra hc; exact h (Or.inr (not_le.mp hc))
-      have : (0 : Rat) < dofEps := by unfold dofEps; norm_num
-      linarith
-    exact mul_nonneg (mul_nonneg (div_nonneg (div_nonneg zero_le_one (hpow 2 _ (by norm_num))) (hg _ hd).le) (hpow x _ hx)) (hexp _).le
+  · exact (hexp _).le
 
 theorem pdfExponential_nonneg (T : Fn) (hexp : ∀ y, 0 < T.exp y) (x mean v : Rat) (h : pdfExponential T x mean = .ok v) : 0 ≤ v := by
   unfold pdfExponential at h
@@ -166,12 +160,18 @@ theorem binomial_guard (binom : Nat → Nat → Rat) (t : Nat) (p : Rat) (x : Na
 
 /-! ## Chi-square = regularized incomplete gamma; chi-bar-square = mixture -/
 
-/-- **cdf_chisq_is_P**: the two `Gamma` factors cancel -/
-theorem cdf_chisq_is_P (T : Fn) (x dof : Rat) (hx : 0 ≤ x) (hd : dofEps ≤ rabs dof) (hg : T.gamma (dof / 2) ≠ 0) :
+/-- **cdf_chisq_is_P**: on the support the CDF is the regularized incomplete gamma function -/
+theorem cdf_chisq_is_P (T : Fn) (x dof : Rat) (hx : 0 ≤ x) (hd : dofEps ≤ rabs dof) :
     cdfChiSq T x dof = T.gammaP (x / 2) (dof / 2) := by
-  unfold cdfChiSq lowerGamma
+  unfold cdfChiSq
   rw [if_neg (not_lt.mpr hx), if_neg (not_lt.mpr hd)]
-  field_simp
+
+/-- the product form used before the repair agrees with it whenever `Gamma(dof/2)` is a non-zero
+    number (it is `inf` in double for dof/2 > 171.6: the repaired overflow) -/
+theorem cdf_chisq_product_form (T : Fn) (x dof : Rat) (hg : T.gamma (dof / 2) ≠ 0) :
+    cdfChiSqProduct T x dof = cdfChiSq T x dof := by
+  unfold cdfChiSqProduct cdfChiSq lowerGamma
+  split_ifs <;> first | rfl | (field_simp)
 
 theorem cdfChiSq_dof_zero (T : Fn) (x : Rat) (hx : 0 ≤ x) : cdfChiSq T x 0 = 1 := by
   unfold cdfChiSq
@@ -309,7 +309,7 @@ theorem binned_is_product (T : Fn) (h0 : T.exp 0 = 1) (hadd : ∀ a b, T.exp (a 
   have e1 : logLikelihoodBinned T s n b = .ok ((l.map (fun t => logLikelihoodPoisson T t.1 t.2.1 t.2.2)).sum) := by
     unfold logLikelihoodBinned
     rw [hb]
-    show Except.ok _ = _
+    show Except.ok (List.foldl (fun acc t => acc + logLikelihoodPoisson T t.1 t.2.1 t.2.2) 0 l) = _
     rw [foldl_add_eq_sum (fun t => logLikelihoodPoisson T t.1 t.2.1 t.2.2) l 0, zero_add]
   refine ⟨e1, ?_⟩
   unfold likelihoodBinned
